@@ -222,22 +222,113 @@ theorem topStr_paras (sty : Styles) (st : MSt) (l : List Node) (h : ∀ n ∈ l,
       · rw [List.flatten_cons, nonWs_append]
         exact List.Sublist.append hsub (by simpa [pvisL] using hs2)
 
+/-! ### white space between block-level elements is not content (repair 2b96491: `_elements`) -/
+
+theorem elems_text (s : Str) (l : List Node) : elems (.text s :: l) = elems l := by simp [elems, tagOf]
+theorem elems_elem (q : Str) (a : Attrs) (k l : List Node) : elems (.elem q a k :: l) = .elem q a k :: elems l := by
+  simp [elems, tagOf]
+
+/-- the loop of `toString` only sees the element children: text nodes between the paragraphs, lists and tables of
+    office:text (the indentation of a pretty-printed file) change nothing -/
+theorem topStr_elems (sty : Styles) (st : MSt) (l : List Node) : topStr sty st l = topStr sty st (elems l) := by
+  induction l generalizing st with
+  | nil => rfl
+  | cons n ns ih =>
+    cases n with
+    | text s => rw [elems_text, topStr]; exact ih st
+    | elem q a k =>
+      rw [elems_elem, topStr, topStr]
+      split
+      · exact ih st
+      · rfl
+      · rename_i t st1 _; rw [ih st1]
+
+/-- the same for the items of a list … -/
+theorem itemsStr_elems (sty : Styles) (o : Bool) (i : Nat) (st : MSt) (l : List Node) :
+    itemsStr sty o i st l = itemsStr sty o i st (elems l) := by
+  induction l generalizing st with
+  | nil => rfl
+  | cons n ns ih =>
+    cases n with
+    | text s => rw [elems_text, itemsStr]; exact ih st
+    | elem q a k =>
+      rw [elems_elem, itemsStr, itemsStr]
+      split
+      · rfl
+      · rename_i t st1 _; rw [ih]
+
+/-- … the children of a list item … -/
+theorem subitemsStr_elems (sty : Styles) (i : Nat) (st : MSt) (l : List Node) :
+    subitemsStr sty i st l = subitemsStr sty i st (elems l) := by
+  induction l generalizing st with
+  | nil => rfl
+  | cons n ns ih =>
+    cases n with
+    | text s => rw [elems_text, subitemsStr]; exact ih st
+    | elem q a k =>
+      rw [elems_elem, subitemsStr, subitemsStr]
+      split
+      · split
+        · rfl
+        · rename_i t st1 _; rw [ih]
+      · split
+        · split
+          · rfl
+          · rename_i t st1 _
+            split
+            · rfl
+            · rename_i t2 st2 _; rw [ih]
+        · exact ih st
+
+/-- … the children of a table (rows, header rows, columns) … -/
+theorem rowsStr_elems (sty : Styles) (st : MSt) (l : List Node) : rowsStr sty st l = rowsStr sty st (elems l) := by
+  induction l generalizing st with
+  | nil => rfl
+  | cons n ns ih =>
+    cases n with
+    | text s =>
+      rw [elems_text, rowsStr, rowStr]
+      simp only [List.nil_append]
+      rw [ih st]
+      cases rowsStr sty st (elems ns) with
+      | error e => rfl
+      | ok v => rfl
+    | elem q a k =>
+      rw [elems_elem, rowsStr, rowsStr]
+      split
+      · rfl
+      · rename_i t st1 _; rw [ih]
+
+/-- … and the cells of a row -/
+theorem cellsStr_elems (sty : Styles) (st : MSt) (l : List Node) : cellsStr sty st l = cellsStr sty st (elems l) := by
+  induction l generalizing st with
+  | nil => rfl
+  | cons n ns ih =>
+    cases n with
+    | text s => rw [elems_text, cellsStr]; exact ih st
+    | elem q a k =>
+      rw [elems_elem, cellsStr, cellsStr]
+      split
+      · rfl
+      · rename_i t st1 _; rw [ih]
+
 /-- **C18 (MoinMoin: total and complete) — partial**: for a text document whose body consists of paragraphs and headings
     with inline content (text, spans, links, bookmark references and the other `inline_markup` elements, text:s / tab /
     line-break, bookmarks and the other ignored empty elements, images; headings with a decimal outline level), and
-    whose styles the model can read (`loadStyles` succeeds), `toString` returns a string and the visible text is a
+    whose styles the model can read (`loadStyles` succeeds) — text nodes BETWEEN these paragraphs (indentation) are allowed —,
+    `toString` returns a string and the visible text is a
     subsequence of it, white space dropped on both sides.  Outside: lists, tables, sections, frames, notes
     (their conversion is tied to the code by the exact-string correspondence only). -/
 theorem moin_total_complete_partial (stylesDoc contentDoc : Node) (sty : Styles) (body : Node) (bs : List Node)
     (textEl : Node) (more paras : List Node) (h1 : loadStyles stylesDoc contentDoc = .ok sty)
-    (h2 : byTag contentDoc tBody = body :: bs) (h3 : kidsOf body = textEl :: more) (h4 : kidsOf textEl = paras)
+    (h2 : byTag contentDoc tBody = body :: bs) (h3 : elems (kidsOf body) = textEl :: more) (h4 : elems (kidsOf textEl) = paras)
     (h5 : ∀ n ∈ paras, MPara n) :
     ∃ out, toString stylesDoc contentDoc = .ok out ∧ (nonWs (pvisL paras)).Sublist (nonWs out) := by
   obtain ⟨ts, st', ht, hf, hs⟩ := topStr_paras sty {} paras h5
   have hfoot : st'.foot = [] := by rw [hf]
   refine ⟨List.intercalate [10] (ts ++ [[]]), ?_, ?_⟩
   · unfold toString
-    simp [h1, h2, h3, h4, ht, hfoot, bind, Except.bind, pure, Except.pure]
+    simp [h1, h2, h3, topStr_elems sty {} (kidsOf textEl), h4, ht, hfoot, bind, Except.bind, pure, Except.pure]
   · have := flatten_sublist_intercalate [10] (ts ++ [[]])
     have h' : (ts ++ [[]]).flatten = ts.flatten := by simp
     rw [h'] at this
